@@ -43,7 +43,7 @@ for _q, _encs in ENCODED.items():
         PAYLOADS += [f"{_e}+str({S}())+{_e}", f"fr{_e} or f != {_e}zz", f"s1{_e} splitters: uid return {_e}pwned{_e} weighted 1 }} /*", f"x{_e}", f"{_e}"]
 # contents that spell a number, a constant or a name (a coercing model turns the literal into another kind of node), and
 # contents that spell a field of the same program (a table keyed by spelling would confuse the two)
-PAYLOADS += ["nan", "inf", "-inf", "12", "1e3", "-1", "0x10", "1_0", "True", "None", "f", "uid", "g", "country", "e", "str", "exp", "__class__", " 12 ", "١٢"]
+PAYLOADS += ["", " ", "''", '""', "nan", "inf", "-inf", "12", "1e3", "-1", "0x10", "1_0", "True", "None", "f", "uid", "g", "country", "e", "str", "exp", "__class__", " 12 ", "١٢"]
 PAYLOADS += [f"a&#10;{S}()", f"a%0a{S}()", f"a\\n{S}()", f"a&#13;&#10;{S}()", "&amp;", "&lt;script&gt;", "&#0;", "&#x110000;", "&nbsp;", "%00", "%", "%2", "%%", "$$", "${" + S + "}", "$" + S, "\\$"]
 MARK = "hArMlEsS"
 T, F = ("ret", (("T", "1"),)), ("else", ("ret", (("F", "1"),)))
